@@ -234,7 +234,7 @@ func derefUses(v ssa.Value) []derefUse {
 
 func calleeName(com *ssa.CallCommon) string {
 	if sc := com.StaticCallee(); sc != nil {
-		return sc.Name()
+		return canonFnName(sc)
 	}
 	if com.IsInvoke() {
 		return com.Method.Name()
@@ -268,8 +268,8 @@ func (m *Model) RunPanicCall(s *Sink, rule string, fns []*ssa.Function) {
 						continue
 					}
 					full := fnFullName(sc)
-					if fatalCalls[full] || (m.InModule(sc) && (sc.Name() == "PanicOnError" || sc.Name() == "FatalOnError")) {
-						key := fmt.Sprintf("%s|call %s", fnKey(fn), sc.Name())
+					if fatalCalls[full] || (m.InModule(sc) && (canonFnName(sc) == "PanicOnError" || canonFnName(sc) == "FatalOnError")) {
+						key := fmt.Sprintf("%s|call %s", fnKey(fn), canonFnName(sc))
 						s.Violation(rule, key, m.InstrPos(x), "%s is called on a path reachable from an API root (%s): the process would exit or panic instead of returning an error", full, fnKey(fn))
 					}
 				}
@@ -892,7 +892,7 @@ func (m *Model) RunNilRet(s *Sink, rule string, fns []*ssa.Function) {
 				}
 				for _, use := range derefUses(ptr) {
 					n++
-					key := fmt.Sprintf("%s|result of %s is used only after its errors were tested (%s)", fnKey(fn), call.Call.StaticCallee().Name(), use.kind)
+					key := fmt.Sprintf("%s|result of %s is used only after its errors were tested (%s)", fnKey(fn), canonFnName(call.Call.StaticCallee()), use.kind)
 					facts := expandFacts(factsAt(use.at.Block()))
 					ok := nilGuarded(a, ptr, facts)
 					if !ok {
